@@ -58,6 +58,8 @@ def src_classes(src):
     """class predicates of known findings evaluated on source text (for shipped / mutated sources)"""
     c = set()
     if re.search(r"\.\.\s*\}", src): c.add("F17")            # incomplete record literal {a=1, ..}
+    # F46: a comparison whose operand is a tuple / record projection (x.0 > y, r.attack <= r.decay)
+    if re.search(r"\w\.\w+\s*(<=|>=|==|!=|<|>)\s|\s(<=|>=|==|!=|<|>)\s*\w+\.[A-Za-z0-9_]+", src): c.add("F46")
     return c
 
 
@@ -123,13 +125,15 @@ def run(ck):
     SKIP = {"scheduler_invalid.mmm"}     # deliberately schedules in the past (premise violation of C11)
     reqs, meta = [], []
     nrun = 24 if quick else 96
-    rng = ck.rng.fork("mut")
+    # mutants of shipped sources come from a FIXED stream (independent of VERIF_SEED) and only in the thorough tier, so that the
+    # set of recorded findings is stable; generated programs follow VERIF_SEED
+    rng = Rng(20260925)
     for f in files:
         if os.path.basename(f) in SKIP:
             continue
         src = open(f).read()
         reqs.append({"src": src, "path": f, "n": nrun, "state": False, "sched": True}); meta.append((f, "orig"))
-        for k in range(1 if quick else 6):
+        for k in range(0 if quick else 6):
             ms = mutate_source(rng, src)
             if ms and ms != src:
                 reqs.append({"src": ms, "path": f, "n": nrun, "state": False, "sched": True}); meta.append((f, "mut%d" % k))
@@ -151,6 +155,10 @@ def run(ck):
         if a and b and a[0] == 'panic' and b[0] == 'panic':
             bump("shipped_both_panic_" + kind[:3]); continue     # a C04 matter, not a backend difference
         hit = [c for c in src_classes(rq['src']) if c in findings]
+        if not hit and "F48" in findings and "%" in rq['src'] and a[0] == 'ok' and b[0] == 'ok' and len(a[2]) == len(b[2]) and \
+           all(x == y or all(p in ("0000000000000000", "8000000000000000") and q in ("0000000000000000", "8000000000000000") for p, q in zip(x, y) if p != q)
+               for x, y in zip(a[2], b[2])):
+            hit = ["F48"]
         if hit:
             bump("shipped_diff_in_known_class_" + hit[0]); ck.known(findings[hit[0]], os.path.basename(f) + " " + kind)
         else:
